@@ -181,6 +181,8 @@ FIXED = [
     ("C13", "16b493c", "`1.e3` was undefined and `5..toString()` a syntax error (the decimal point was only taken when a digit followed), and `3in x`, `0x1g` were accepted (found by the author of seed C13-g)"),
     ("C13", "fbd50ce", "`new a.b()` was parsed as `(new a).b()` and failed with 'not a constructor': the callee of new was a primary expression only (found by the author of seed C13-g)"),
     ("C08", "da3ae7d", "`function A(){ return function(){} }; typeof new A()` was 'object': a function returned by a constructor was not counted as an object and the new instance was kept"),
+    ("C09", "8d8b250", "`/[^A]/i.test(\"a\")` was true, the dot matched \\r, \\u2028 and \\u2029, `/^b/m` did not match in \"a\\rb\" and `\"a\\n\".replace(/^/mg, \">\")` was \">a\\n\" (found by the author of seed C09-h)"),
+    ("C09", "45df918", "`/(?:(a)|b){2}/.exec(\"ab\")[1]` was \"a\" (no capture reset between unrolled copies), `/(?:(a)|b){1,2}/.exec(\"a\")[1]` was undefined (the reset sat in front of the branch point) and `/(a*)b\\1+/` did not match \"b\" (the empty check hit the mandatory repetition of +) (found by the author of seed C09-h)"),
     ("C20", "33cb6fa", "`'baa'.search(/a/y)` was 1, `'baa'.match(/a/y)` matched, `'aaba'.replace(/a/gy,'x')` was 'xxbx' (a sticky regex matches only where it starts); `var r=/a/g; r.lastIndex=1; 'aaaa'.match(r); r.lastIndex` stayed 1 and a failed global match or replace left lastIndex as it was (global match/replace start at 0 and leave 0); a sticky non-global match/replace did not advance or reset lastIndex"),
 ]
 
